@@ -3,9 +3,12 @@
    { ~  \  n  "  a  LF  e-acute } with 0..3 arguments.  For each one in the bytecode-level
    quantifier (no dangling backslash) a 3-instruction-style bytecode program is encoded with
    the TLA+ writer; for each one the lexer admits, the line is flagged `src` so the driver also
-   builds the source program print("...", args).  Arguments: 7, null, [true, true].       *)
+   builds the source program print("...", args).  Arguments: 7, null, [true, true]; in the `nasty` variant
+   (bytecode level only: no source text can name such a slot) the first argument is an object whose slot name
+   itself contains a backslash, the letter n, a tilde and a quote - a rendered value is inserted as it is and is
+   never scanned for escapes or placeholders.                                                          *)
 EXTENDS FMLBytecode, FMLSyntax, TLC, Json, IOUtils
-VARIABLES f, nargs
+VARIABLES f, nargs, nasty
 
 MaxLen == IF "MAXLEN" \in DOMAIN IOEnv THEN CHOOSE k \in 0..6 : ToString(k) = IOEnv.MAXLEN ELSE 3
 Alphabet == { <<126>>, <<92>>, <<110>>, <<34>>, <<97>>, <<10>>, <<195, 169>>, <<114>>, <<116>> }    \* ~ \ n " a LF e-acute r t  (n, r, t: the letters of the escapes)
@@ -14,14 +17,16 @@ RECURSIVE Flat(_)
 Flat(ss) == IF ss = <<>> THEN <<>> ELSE Head(ss) \o Flat(Tail(ss))
 Ins(o, a, n) == [op |-> o, a |-> a, n |-> n]
 ArgCode == << <<Ins(OP_LIT, 2, 0)>>, <<Ins(OP_LIT, 3, 0)>>, <<Ins(OP_LIT, 5, 0), Ins(OP_LIT, 4, 0), Ins(OP_ARRAY, 0, 0)>> >>
-Prog(fmt, n) ==
+NastyArg == <<Ins(OP_LIT, 3, 0), Ins(OP_LIT, 2, 0), Ins(OP_OBJECT, 9, 0)>>          \* object(NAME = 7) with NAME = a \ n ~ " b
+Prog(fmt, n, nst) ==
   [consts |-> << [k |-> "str", bytes |-> <<206,187,58>>], [k |-> "str", bytes |-> fmt], [k |-> "int", i |-> 7], [k |-> "null"],
                  [k |-> "bool", b |-> TRUE], [k |-> "int", i |-> 2],
-                 [k |-> "method", name |-> 0, arity |-> 0, locals |-> 0, code |-> Flat([i \in 1..n |-> ArgCode[i]]) \o <<Ins(OP_PRINT, 1, n)>>] >>,
+                 [k |-> "method", name |-> 0, arity |-> 0, locals |-> 0, code |-> Flat([i \in 1..n |-> IF nst /\ i = 1 THEN NastyArg ELSE ArgCode[i]]) \o <<Ins(OP_PRINT, 1, n)>>],
+                 [k |-> "str", bytes |-> <<97, 92, 110, 126, 34, 98>>], [k |-> "slot", name |-> 7], [k |-> "class", members |-> <<8>>] >>,
    globals |-> <<>>, entry |-> 6]
-Init == f \in Strings /\ nargs \in 0..3
-Next == FALSE /\ UNCHANGED <<f, nargs>>
+Init == f \in Strings /\ nargs \in 0..3 /\ nasty \in BOOLEAN /\ (nasty => nargs >= 1)
+Next == FALSE /\ UNCHANGED <<f, nargs, nasty>>
 Report == LET fmt == Flat(f) IN
           ~NoDanglingBackslash(fmt) \/
-          PrintT(<<"REPLAY", ToJson([fmt |-> fmt, nargs |-> nargs, src |-> StringBodyOK(fmt), bytes |-> Encode(Prog(fmt, nargs))])>>)
+          PrintT(<<"REPLAY", ToJson([fmt |-> fmt, nargs |-> nargs, nasty |-> nasty, src |-> StringBodyOK(fmt) /\ ~nasty, bytes |-> Encode(Prog(fmt, nargs, nasty))])>>)
 =============================================================================
